@@ -5,6 +5,12 @@ _restartComponent, finishedCheck, kill_all_components, cleanUp, initialise), exp
 (state, finish, stageIn, run, restart, rx pipelines), Engine.restart / Engine.isAlive / exitReason / shutdown contract.
 Fake: the task below the engine (FakeEngine: run() counts, exits are injected by the environment), threads and time
 (harness.world).  The environment turn is Controller._event_scheduler.wait().
+
+Growth (G02): the environment may also call into the controller from "another thread" during a turn:
+killController() (event ExternalKill), sleep() / wake_up() (events Sleep / WakeUp); a run may start from a later stage
+(ComponentStates of the earlier stages are built with create_engine=False, Controller.initialise(stage k) as
+tests/utils.py new_controller(initial_stage=k)); the memoization database is a fake (FakeCDB) below the REAL
+Controller.can_memoize / _memoize_populate_component_workdir.
 """
 import logging
 import os
@@ -164,6 +170,35 @@ class FakeStatus:
         pass
 
 
+class FakeCDB:
+    """The memoization database below the real Controller.can_memoize(): the environment's answer per component.
+    `yes`: a document whose location is a non-empty local directory (the real _memoize_populate_component_workdir copies
+    it); `nopop`: a document that looks accessible (remote) but whose download fails -> no memoization."""
+
+    def __init__(self, harness):
+        self.h = harness
+        self.current = None          # reference of the component can_memoize() is asking about
+        self.queries = []
+
+    def cdb_get_document_component(self, query=None, _api_verbose=False, **kw):
+        ref = self.current
+        self.queries.append((ref, dict(query or {})))
+        if "memoization-hash" not in (query or {}):
+            return []                # fuzzy memoization is off
+        if ref in self.h.memo:
+            return [dict(location=self.h.memo_dir, instance="past-2020-01-01T000000.000000.instance", stage=0, name="past")]
+        if ref in self.h.nopop:
+            return [dict(location=os.path.join(self.h.scratch, "no-such-dir"), instance="gone-2020-01-01T000000.000000.instance",
+                         stage=0, name="gone")]
+        return []
+
+    def cdb_query_component_files_exist(self, instance_uri, stage_index, component_name):
+        return True
+
+    def cdb_download_component_files(self, instance_uri, stage_index, component_name, output_dir):
+        raise IOError("remote files are gone")
+
+
 class EnvTurn:
     """Replaces Controller._event_scheduler: wait() is the environment turn."""
 
@@ -185,7 +220,18 @@ class EnvTurn:
 
 
 class Harness:
-    def __init__(self, shape_name, oa, scratch, policy, log_trace=True):
+    def __init__(self, shape_name, oa, scratch, policy, log_trace=True, start=0, memo=(), nopop=()):
+        self.start = start                       # the stage the run starts from (restart)
+        self.memo_plan = set(memo)               # node names the memoization database offers outputs for
+        self.nopop_plan = set(nopop)             # node names it offers outputs for that cannot be copied
+        self.memo = set()                        # references (filled in build)
+        self.nopop = set()
+        self.killed = False
+        self.nsleep = 0
+        self.memoized = set()
+        self.in_wakeup = False
+        self.crash = None
+        self.externals = []
         self.shape_name = shape_name
         self.base = SS.BASE_SHAPES[shape_name]
         self.nodes = SS.expand(self.base)
@@ -217,15 +263,24 @@ class Harness:
         for i, n in enumerate(self.nodes):
             r = self.ref(n)
             comp = self.comps[r]
-            eng = self.engines[r]
+            eng = self.engines.get(r)
             s = STATE_NAME[comp.state]
+            if eng is None:
+                # a component of a stage before the starting one: no engine was created for it
+                st[r] = dict(cs=s, exitR="none", nrun=0, nrestart=0, nresub=0, fin=bool(comp.finishCalled), killreq=False,
+                             notified=False)
+                continue
             if s == "running" and eng.nrun == 0:
                 s = "idle"
             st[r] = dict(cs=s, exitR=eng._exitReason or "none", nrun=eng.nrun, nrestart=eng.restarts,
                          nresub=eng._resubmissionAttempts, fin=bool(comp.finishCalled),
                          killreq=bool(eng.kill_requested), notified=bool(eng.producers_finished))
         return dict(comps=st, done=sorted(ctrl.comp_done), staged=sorted(c.specification.reference for c in ctrl.comp_staged_in),
-                    stop=bool(ctrl.stop_executing), stage=self.stage, phase=self.phase, verdict=list(self.verdicts))
+                    stop=bool(ctrl.stop_executing), stage=self.stage, phase=self.phase, verdict=list(self.verdicts),
+                    killed=self.killed, memoized=sorted(self.memoized), sleepReq=bool(ctrl._start_sleeping),
+                    asleep=bool(ctrl._scheduler_sleeps),
+                    postponed=sorted(c.specification.reference for _s, c in ctrl._component_finished_while_sleeping),
+                    nsleep=self.nsleep)
 
     def event(self, name, arg=None, extra=None):
         self.calls.append((name, arg))
@@ -270,12 +325,22 @@ class Harness:
             stage = self.exp._stages[data['stageIndex']]
             spec = data['componentSpecification']
             job = stage.jobWithName(spec.identification.componentName)
-            comp = workflow.ComponentState(job, wg, create_engine=True)
+            comp = workflow.ComponentState(job, wg, create_engine=bool(stage.index >= self.start))
             self.comps[job_name] = comp
             self._wrap_component(comp)
         self.exp_node_order = list(graph.nodes)
+        byname = {n["node"]: self.ref(n) for n in self.nodes}
+        # the database only knows components that can be asked about: the ones of the stages that run
+        self.memo = {byname[x] for x in self.memo_plan if byname[x] in self.engines}
+        self.nopop = {byname[x] for x in self.nopop_plan if byname[x] in self.engines} - self.memo
         self.controller = control.Controller(self.exp)
         c = self.controller
+        if self.memo or self.nopop:
+            self.memo_dir = os.path.join(self.scratch, "memo_src")
+            os.makedirs(self.memo_dir, exist_ok=True)
+            with open(os.path.join(self.memo_dir, "out.txt"), "w") as f:
+                f.write("memoized output\n")
+            c.cdb = FakeCDB(self)
         c._event_scheduler = EnvTurn(self)
         c._observe_completionCheck = lambda stage: None
         c.comp_done = LoggedSet(self, "Done", lambda x: x)
@@ -302,9 +367,26 @@ class Harness:
                     try:
                         return orig(state, component)
                     finally:
-                        h.step(name[0].upper() + name[1:], ref)
+                        if not h.in_wakeup:      # wake_up() replays the postponed finishedChecks under one lock: one step
+                            h.step(name[0].upper() + name[1:], ref)
                 return wrapped
             setattr(c, name, make(orig, name))
+        orig_can = c.can_memoize
+
+        def can_memoize(component, fuzzy):
+            if c.cdb is not None:
+                c.cdb.current = component.specification.reference
+            return orig_can(component, fuzzy)
+        c.can_memoize = can_memoize
+        orig_ff = c._fake_finish_with_state
+
+        def fake_finish(component, new_state):
+            ref = component.specification.reference
+            h.event("FakeFinish", (ref, STATE_NAME.get(new_state, new_state)))
+            if new_state == codes.FINISHED_STATE:
+                h.memoized.add(ref)
+            return orig_ff(component, new_state)
+        c._fake_finish_with_state = fake_finish
         orig_sched = c._schedule
 
         def sched(migrated_components):
@@ -341,6 +423,28 @@ class Harness:
             e.env_exit(self.outcome(ref, e.nrun))
         self.step(name, ref)
 
+    def do_external(self, what):
+        """The environment calls into the controller (as elaunch / a signal handler / a watchdog thread would)."""
+        c = self.controller
+        self.externals.append((what, self.turns))
+        if what == "kill":
+            c.killController("external")
+            self.killed = True
+            self.step("ExternalKill")
+        elif what == "sleep":
+            c.sleep()
+            self.nsleep += 1
+            self.step("Sleep")
+        elif what == "wake":
+            self.in_wakeup = True
+            try:
+                c.wake_up()
+            finally:
+                self.in_wakeup = False
+            self.step("WakeUp")
+        else:
+            raise ValueError(what)
+
     def run_item(self, item):
         self.world.run(item)
         self.step("Internal")
@@ -355,8 +459,15 @@ class Harness:
         if self.turns > 4000:
             raise Stuck("no termination after %d controller passes" % self.turns)
         n = self.policy.burst(self)
+        # a call into the controller from another thread (kill / sleep / wake-up), somewhere in this turn
+        ext = self.policy.external(self) if hasattr(self.policy, "external") else None
+        ext_at = self.policy.rnd_env.randint(0, n) if ext else None
         progressed = False
-        for _ in range(n):
+        for i in range(n):
+            if ext and i == ext_at:
+                self.do_external(ext)
+                ext = None
+                progressed = True
             ch = self.choices()
             if not ch:
                 break
@@ -366,7 +477,14 @@ class Harness:
                 self.run_item(x)
             else:
                 self.do_env(x)
-        if not progressed and not self.choices():
+        if ext:
+            self.do_external(ext)
+            progressed = True
+        if not progressed and not self.choices() and self.controller._start_sleeping:
+            # nothing can happen while the controller sleeps: whoever put it to sleep wakes it up
+            self.do_external("wake")
+            self.idle_turns = 0
+        elif not progressed and not self.choices():
             # nothing can happen now: let virtual time pass (5 s interval ticks of the state pipelines)
             if not self.world.advance_to_next_timer():
                 raise Stuck("controller waits but nothing is pending")
@@ -379,6 +497,8 @@ class Harness:
     def drain(self, limit=3000):
         """After the stage loop: let everything settle (notifications, kills)."""
         idle = 0
+        if self.controller._start_sleeping:
+            self.do_external("wake")
         for _ in range(limit):
             ch = self.choices()
             if ch:
@@ -404,8 +524,10 @@ class Harness:
     def execute(self):
         c = self.controller
         nstages = len(self.exp._stages)
-        c.initialise(self.exp._stages[0], FakeStatus())
-        for s in range(nstages):
+        self.verdicts = ["skipped"] * self.start
+        self.stage = self.start
+        c.initialise(self.exp._stages[self.start], FakeStatus())
+        for s in range(self.start, nstages):
             self.stage = s
             try:
                 c.run()
@@ -436,8 +558,13 @@ class RandomPolicy:
     """Seeded schedule: how many things happen between two controller passes (burst), how eager the environment is
     (task exits / kills) and how eager the controller callbacks are relative to the other rx hops (ctrl_weight)."""
 
-    def __init__(self, seed, burst_max=4, env_bias=0.5, ctrl_weight=1.0, eager_internal=False):
+    def __init__(self, seed, burst_max=4, env_bias=0.5, ctrl_weight=1.0, eager_internal=False,
+                 kill_p=0.0, sleep_p=0.0, wake_p=0.3, max_sleeps=1):
         self.rnd = random.Random(seed)
+        # calls into the controller from outside (G02): a separate stream, so that the schedules of the runs without
+        # such calls do not depend on these parameters
+        self.rnd_env = random.Random(seed * 7919 + 13)
+        self.kill_p, self.sleep_p, self.wake_p, self.max_sleeps = kill_p, sleep_p, wake_p, max_sleeps
         self.burst_max = burst_max
         self.env_bias = env_bias
         self.ctrl_weight = ctrl_weight
@@ -447,6 +574,19 @@ class RandomPolicy:
 
     def burst(self, h):
         return self.rnd.randint(0, self.burst_max)
+
+    def external(self, h):
+        """At most one call into the controller per turn: killController() (once per run), sleep(), wake_up()."""
+        if not (self.kill_p or self.sleep_p):
+            return None
+        r = self.rnd_env
+        if self.kill_p and not h.killed and r.random() < self.kill_p:
+            return "kill"
+        if h.controller._start_sleeping:
+            return "wake" if r.random() < self.wake_p else None
+        if self.sleep_p and h.nsleep < self.max_sleeps and r.random() < self.sleep_p:
+            return "sleep"
+        return None
 
     def pick(self, h, choices):
         envs = [c for c in choices if c[0] == "env"]
@@ -463,10 +603,12 @@ class RandomPolicy:
         return self.rnd.choices(items, weights=ws, k=1)[0]
 
 
-def run_case(shape_name, oa, scratch, policy, log_trace=True):
-    """Runs one (shape, outcomes) under one schedule policy.  Returns the harness (trace, final snapshot, flags)."""
+def run_case(shape_name, oa, scratch, policy, log_trace=True, start=0, memo=(), nopop=(), catch_crash=False):
+    """Runs one (shape, outcomes[, starting stage, memoization answers]) under one schedule policy.  Returns the harness
+    (trace, final snapshot, flags).  catch_crash: an exception escaping the REAL stage loop (other than the verdict
+    exceptions) is recorded in h.crash instead of being raised."""
     base_threads = set(threading.enumerate())
-    h = Harness(shape_name, oa, scratch, policy, log_trace)
+    h = Harness(shape_name, oa, scratch, policy, log_trace, start=start, memo=memo, nopop=nopop)
     with W.Installed(h.world) as inst:
         h.build(inst)
         h.step("Init")
@@ -476,6 +618,14 @@ def run_case(shape_name, oa, scratch, policy, log_trace=True):
         except Stuck as e:
             h.quiescent = False
             h.stuck = str(e)
+        except Exception as e:
+            if not catch_crash:
+                raise
+            import traceback
+            h.quiescent = False
+            h.stuck = None
+            h.crash = "%s: %s" % (type(e).__name__, e)
+            h.crash_tb = traceback.format_exc()
         h.final = h.snapshot()
     h.threads = W.assert_no_threads(base_threads)
     shutil.rmtree(h.exp.instanceDirectory.location, ignore_errors=True)
@@ -507,10 +657,12 @@ def trace_to_tla(h, sid):
             continue
         st = e["st"]
         f = lambda key: "<<" + ", ".join(_tla(st["comps"][r][key]) for r in refs) + ">>"
-        steps.append("<<%s, %d, %s, %s, %s, %s, %s, %s, %s, %s, {%s}, {%s}, %s, %d, %s, <<%s>>>>" % (
+        g = lambda key: "{" + ", ".join(str(idx[r]) for r in st[key]) + "}"
+        steps.append("<<%s, %d, %s, %s, %s, %s, %s, %s, %s, %s, %s, %s, %s, %d, %s, <<%s>>, %s, %s, %s, %s, %s, %d>>" % (
                          _tla(e["ev"]), idx.get(e["arg"], 0), f("cs"), f("exitR"), f("nrun"), f("nrestart"), f("nresub"), f("fin"),
-                         f("killreq"), f("notified"), ", ".join(str(idx[r]) for r in st["done"]),
-                         ", ".join(str(idx[r]) for r in st["staged"]), _tla(st["stop"]), st["stage"], _tla(st["phase"]),
-                         ", ".join(_tla(v) for v in st["verdict"])))
-    return "[shape |-> %d, outs |-> <<%s>>, scan |-> <<%s>>, steps |-> <<\n    %s>>]" % (
-        sid, ", ".join(map(str, h.oa)), ", ".join(map(str, order)), ",\n    ".join(steps))
+                         f("killreq"), f("notified"), g("done"), g("staged"), _tla(st["stop"]), st["stage"], _tla(st["phase"]),
+                         ", ".join(_tla(v) for v in st["verdict"]),
+                         _tla(st["killed"]), g("memoized"), _tla(st["sleepReq"]), _tla(st["asleep"]), g("postponed"), st["nsleep"]))
+    return "[shape |-> %d, outs |-> <<%s>>, scan |-> <<%s>>, start |-> %d, memo |-> {%s}, steps |-> <<\n    %s>>]" % (
+        sid, ", ".join(map(str, h.oa)), ", ".join(map(str, order)), h.start, ", ".join(str(idx[r]) for r in sorted(h.memo)),
+        ",\n    ".join(steps))
